@@ -68,7 +68,7 @@ def run(chk: Check, drv: Driver):
                     if pr.broadcast:
                         continue
                     cases = [pr.gen_inputs(rng) for _ in range(2)]
-                    res = WORKER.run(pr.text, pr.fs, [ins for _, ins in cases], "llvm", feedback=True, capacity=cap, timeout=60)
+                    res = WORKER.run(pr.text, pr.fs, [ins for _, ins in cases], "llvm", feedback=True, capacity=cap, timeout=240)
                     if res[0] != "ok":
                         chk.violation(f"real kernel {res[0]}: {res[1:3]}", pr.case(*cases[0], capacity=cap))
                         continue
